@@ -72,6 +72,10 @@ func genC19Case(t *rapid.T) c19Case {
 			c.CT = []string{"application/rss+xml; charset=utf-8", "text/xml", "application/xml"}[rapid.IntRange(0, 2).Draw(t, "ct")]
 		case "atom":
 			c.CT = []string{"application/atom+xml", "application/xml; charset=UTF-8", "text/xml"}[rapid.IntRange(0, 2).Draw(t, "ct")]
+		case "sitemap", "sitemapindex":
+			// sitemaps are recognised by their content (the sitemaps.org namespace), whatever the server calls them: static
+			// hosts and object stores serve them as text/plain, application/octet-stream or without any Content-Type
+			c.CT = []string{"application/xml", "text/xml; charset=utf-8", "application/xml", "text/plain", "text/plain; charset=utf-8", "application/octet-stream", ""}[rapid.IntRange(0, 6).Draw(t, "ct")]
 		default:
 			c.CT = []string{"application/xml", "text/xml; charset=utf-8", "application/xml"}[rapid.IntRange(0, 2).Draw(t, "ct")]
 		}
